@@ -12,7 +12,8 @@ ID = "C01"
 BUDGET = {"quick": 1600, "thorough": 40000}
 RULE = ("Generated: smooth&decomposable layer DAGs built by construction (G-sd: every input layer type, "
         "Hadamard/Kronecker products of arity 2..3, arity-1 / dense n-ary / mixing sums, shared sub-circuits, "
-        "1..3 outputs incl. inner layers, variable ids renumbered into 0..24) and template circuits (G-rg), "
+        "1..3 outputs incl. inner layers, variable ids renumbered into 0..24) and, for a quarter of the cases, circuits "
+        "built by the library's own region-graph / tabular templates (cp, cp-t, tucker; mixing or dense n-ary sums), "
         "x semiring x fold x optimize x value profile x batch class (1,2,3,5, a fold count, #vars). Oracle: "
         "numpy reference interpreter on the same parameter values (written through the compiler state map): "
         "shape (B,O,K), values within the magnitude-aware bound, and row independence (single-row "
@@ -38,11 +39,57 @@ def _case(draw, tier):
             "xseed": draw(st.integers(0, 2**20)), "bclass": draw(st.sampled_from(harness.BCLASSES))}
 
 
+@st.composite
+def _rg_case(draw, tier):
+    """Circuits built by the library's own templates (region graphs, tabular data): realistic shapes."""
+    from vlib.props import C12
+
+    c = draw(C12.strategy(tier).filter(lambda c: c["family"] in ("rg", "tabular")))
+    return {"template": c, "semiring": draw(st.sampled_from(["sum-product", "lse-sum", "complex-lse-sum"])),
+            "fold": draw(st.booleans()), "optimize": draw(st.booleans()), "vseed": draw(st.integers(0, 2**20)),
+            "profile": draw(st.sampled_from(tie.PROFILES)), "xseed": draw(st.integers(0, 2**20)),
+            "bclass": draw(st.sampled_from(harness.BCLASSES))}
+
+
 def strategy(tier):
-    return _case(tier)
+    return st.one_of(_case(tier), _case(tier), _case(tier), _rg_case(tier))
+
+
+def _run_template_case(case):
+    from vlib.props import C12
+    from vlib.runner import sut
+
+    sem = case["semiring"]
+    with sut("template", refuse=(ValueError,)):
+        sc, dom = C12.build_template(case["template"])
+    comp, cc = harness.compile_circuit(sc, sem, case["fold"], case["optimize"])
+    tensors = tie.sym_tensors(sc)
+    vals = tie.draw_values(tensors, case["vseed"], case["profile"])
+    tie.write_values(comp, vals)
+    scope = sorted(int(v) for v in sc.scope)
+    B = harness.batch_size(case["bclass"], cc, len(scope))
+    rng = np.random.default_rng(case["xseed"])
+    X = np.zeros((B, max(scope) + 1))
+    for v in scope:
+        X[:, v] = rng.integers(0, dom[v][1], size=B) if dom[v][0] == "d" else np.round(rng.normal(size=B), 3)
+    y = harness.evaluate(cc, X, sem)
+    r, M = ref.evaluate_with_mag(sc, vals, X)
+    feat = _features(None, case, cc, B)
+    if tuple(y.shape) != tuple(r.shape):
+        raise Violation("output-shape", f"shape:template:{feat}", f"got {tuple(y.shape)} expected {tuple(r.shape)}")
+    res = harness.check_against_ref(y, np.real(r) if sem != "complex-lse-sum" else r, M, "value-vs-reference",
+                                    sigprefix=f"template:{feat}:")
+    t = case["template"]
+    classes = [f"template:{t['family']}", f"rg:{t.get('rg')}", f"sp:{t['sp']}", f"input:{t['input']}", f"sem:{sem}",
+               f"fold:{case['fold']}", f"opt:{case['optimize']}", f"B:{case['bclass']}"]
+    if B in [f for f in tie.fold_counts(cc) if f > 1]:
+        classes.append("B==fold-count")
+    return {"nontrivial": res == "ok", "classes": classes}
 
 
 def run_case(case):
+    if "template" in case:
+        return _run_template_case(case)
     spec = case["spec"]
     sem = case["semiring"]
     sc = build(spec)
